@@ -344,6 +344,9 @@ class BinaryExpression(TypedExpression):
                 operator_gap_lines = 1
             if comments_before_right and right_gap_lines:
                 right_gap_lines = 1
+            # Keep at most one blank line around the operator.
+            operator_gap_lines = min(operator_gap_lines, 2)
+            right_gap_lines = min(right_gap_lines, 2)
             if operator_node.text is None:
                 raise ValueError("Missing operator")
             operator = Operator(
